@@ -68,7 +68,7 @@ func vc01Handler() Handler {
 			// A slow pipeline whose answer is written after the request's deadline;
 			// the test owns the interleaving with the normal query in flight.
 			hook.once(hook.reached)
-			<-hook.normalSet
+			hook.waitAny(hook.normalSet, hook.normalDone)
 			if hook.waitForCtx {
 				// The handler gives up with the request time-out; the server then
 				// writes its SERVFAIL with the expired context.
@@ -153,8 +153,12 @@ func (m *vc01Metrics) note(format string, a ...any) {
 }
 
 func (m *vc01Metrics) OnRequest(_ context.Context, info *QueryInfo, rw ResponseWriter) {
-	if hook := vc01LateHook.Load(); hook != nil && info != nil && info.Request != nil && vc01IsLate(info.Request) {
-		hook.once(hook.lateDone)
+	if hook := vc01LateHook.Load(); hook != nil && info != nil && info.Request != nil {
+		if vc01IsLate(info.Request) {
+			hook.once(hook.lateDone)
+		} else {
+			hook.once(hook.normalDone)
+		}
 	}
 
 	switch {
@@ -233,6 +237,15 @@ func vc01CheckAccept(s *ServerBase, wire []byte) (c *ref.Case, err error) {
 		return c, fmt.Errorf("%s input: want exactly one write, got %d", ref.VerdictNames[c.Verdict], len(rw.writes))
 	}
 
+	if c.Verdict == ref.VAccept && c.Mode == ref.ModeUnencodable {
+		// The recorder accepts what a socket cannot send.
+		if _, perr := rw.writes[0].Pack(); perr == nil {
+			return c, fmt.Errorf("harness: the unencodable answer packs")
+		}
+
+		return c, nil
+	}
+
 	if rq := rw.reqs[0]; rq == nil || rq.Id != c.Req.Id || len(rq.Question) != len(c.Req.Question) {
 		return c, fmt.Errorf("WriteMsg was given another request: %v", rq)
 	}
@@ -291,6 +304,8 @@ func TestVerifC01Accept(t *testing.T) {
 type vc01PacketConn struct {
 	net.PacketConn
 
+	failN int // the first failN writes fail
+
 	mu  sync.Mutex
 	in  []byte
 	out [][]byte
@@ -304,6 +319,12 @@ func (c *vc01PacketConn) WriteTo(b []byte, _ net.Addr) (int, error) {
 	c.mu.Lock()
 	defer c.mu.Unlock()
 
+	if c.failN > 0 {
+		c.failN--
+
+		return 0, &net.OpError{Op: "write", Net: "udp", Err: errors.New("vc01: transient write error")}
+	}
+
 	c.out = append(c.out, append([]byte(nil), b...))
 
 	return len(b), nil
@@ -316,6 +337,7 @@ func (c *vc01PacketConn) Close() error                     { return nil }
 
 type vc01Conn struct {
 	mu     sync.Mutex
+	failN  int // the first failN writes fail
 	chunk  int // 0: unlimited
 	in     *bytes.Reader
 	out    bytes.Buffer
@@ -342,6 +364,12 @@ func (c *vc01Conn) Write(p []byte) (int, error) {
 
 	if c.closed {
 		return 0, net.ErrClosed
+	}
+
+	if c.failN > 0 {
+		c.failN--
+
+		return 0, &net.OpError{Op: "write", Net: "tcp", Err: errors.New("vc01: transient write error")}
 	}
 
 	return c.out.Write(p)
@@ -402,13 +430,20 @@ func (c *vc01QConn) CloseWithError(code quic.ApplicationErrorCode, _ string) err
 
 type vc01CryptRW struct {
 	local net.Addr
-	out   []*dns.Msg
+	out   [][]byte
 }
 
 func (w *vc01CryptRW) LocalAddr() net.Addr  { return w.local }
 func (w *vc01CryptRW) RemoteAddr() net.Addr { return vc01RemoteUDP }
 func (w *vc01CryptRW) WriteMsg(m *dns.Msg) error {
-	w.out = append(w.out, m)
+	// Like the DNSCrypt library's writers: the message is packed (and
+	// encrypted) at once; a message that does not pack is not sent.
+	b, err := m.Pack()
+	if err != nil {
+		return err
+	}
+
+	w.out = append(w.out, b)
 
 	return nil
 }
@@ -437,8 +472,12 @@ func vc01NewFixture() *vc01Fixture {
 }
 
 func (f *vc01Fixture) udp(wire []byte) (r ref.Result, err error) {
+	return f.udpFail(wire, 0)
+}
+
+func (f *vc01Fixture) udpFail(wire []byte, failN int) (r ref.Result, err error) {
 	s := f.dns
-	pc := &vc01PacketConn{in: wire}
+	pc := &vc01PacketConn{in: wire, failN: failN}
 	if err = s.acceptUDPMsg(context.Background(), pc); err != nil {
 		return r, fmt.Errorf("acceptUDPMsg: %w", err)
 	}
@@ -452,7 +491,11 @@ func (f *vc01Fixture) udp(wire []byte) (r ref.Result, err error) {
 // accepted connection of s the way serveTCPConn does: message after message
 // until the read fails.
 func (f *vc01Fixture) tcp(s *ServerDNS, stream []byte, chunk int) (r ref.Result, err error) {
-	conn := &vc01Conn{in: bytes.NewReader(stream), chunk: chunk}
+	return f.tcpFail(s, stream, chunk, 0)
+}
+
+func (f *vc01Fixture) tcpFail(s *ServerDNS, stream []byte, chunk, failN int) (r ref.Result, err error) {
+	conn := &vc01Conn{in: bytes.NewReader(stream), chunk: chunk, failN: failN}
 	wg := &sync.WaitGroup{}
 	writeMu := &sync.Mutex{}
 	for {
@@ -519,18 +562,10 @@ func (f *vc01Fixture) quicRaw(stream []byte, chunk int) (r ref.Result, err error
 
 func (f *vc01Fixture) crypt(local net.Addr, req *dns.Msg) (r ref.Result, err error) {
 	rw := &vc01CryptRW{local: local}
-	if err = f.dnscrypt.ServeDNS(rw, req.Copy()); err != nil {
-		return r, fmt.Errorf("dnsCryptHandler.ServeDNS: %w", err)
-	}
-
-	for _, m := range rw.out {
-		b, perr := m.Pack()
-		if perr != nil {
-			return r, fmt.Errorf("DNSCrypt response does not pack: %w", perr)
-		}
-
-		r.Msgs = append(r.Msgs, b)
-	}
+	// An error only makes the library try its own SERVFAIL; what counts is what
+	// was sent.
+	_ = f.dnscrypt.ServeDNS(rw, req.Copy())
+	r.Msgs = rw.out
 
 	return r, nil
 }
@@ -566,7 +601,8 @@ func vc01DrawParams(t *rapid.T) (p vc01Params) {
 
 	p.tcpChunk = rapid.SampledFrom([]int{0, 0, 1, 2, 3, 13}).Draw(t, "tcpChunk")
 	p.decoy = rapid.Bool().Draw(t, "dohDecoy")
-	p.streamFault = rapid.SampledFrom([]string{"", "", "", "tcp-short-frame", "tcp-empty-frame", "doq-two-in-one", "doh-two-dns-params", "doh-bad-method"}).Draw(t, "streamFault")
+	p.streamFault = rapid.SampledFrom([]string{"", "", "", "tcp-short-frame", "tcp-empty-frame", "doq-two-in-one", "doh-two-dns-params", "doh-bad-method",
+		"first-write-fails-transient", "first-write-fails-transient"}).Draw(t, "streamFault")
 	p.pick = ref.RapidChooser(t)
 	p.jsonMethod = rapid.SampledFrom([]string{http.MethodGet, http.MethodGet, http.MethodPost}).Draw(t, "jsonMethod")
 
@@ -707,6 +743,42 @@ func vc01FramingCase(t interface{ Fatalf(string, ...any) }, st *vstat.Stats, f *
 	case "doh-bad-method":
 		r, _ = f.http(http.MethodPut, PathDoH+"?dns="+b64(decoyWire), decoyWire)
 		noMsg("doh-put", r, nil, "http-4")
+	case "first-write-fails-transient":
+		// The socket refuses the handler's write once: the handler returns the
+		// error and the server answers SERVFAIL, exactly once
+		// (serveDNSMsgInternal).  Only for queries the handler answers itself.
+		if c.Verdict == ref.VAccept && c.Mode == ref.ModeAnswer && c.Kind != ref.KHuge {
+			classes = append(classes, p.streamFault)
+			sf := ref.ErrReply(c.Req, dns.RcodeServerFailure)
+			check := func(tr ref.Transport, r ref.Result, err error) {
+				if err != nil {
+					fail(tr.Name, err)
+				}
+
+				if len(r.Msgs) != 1 {
+					fail(tr.Name, fmt.Errorf("the first write failed: %d messages came back (%s), want the server's SERVFAIL", len(r.Msgs), r.Treatment))
+				}
+
+				got := &dns.Msg{}
+				if uerr := got.Unpack(r.Msgs[0]); uerr != nil {
+					fail(tr.Name, uerr)
+				}
+
+				if cerr := ref.CheckReply(tr, c, sf, got, true, ref.CheckOpts{}); cerr != nil {
+					fail(tr.Name, fmt.Errorf("the first write failed: %w", cerr))
+				}
+			}
+
+			if len(wire) <= dns.MinMsgSize {
+				r, err = f.udpFail(wire, 1)
+				check(ref.UDP, r, err)
+			}
+
+			r, err = f.tcpFail(f.dns, vc01Frame(wire), p.tcpChunk, 1)
+			check(ref.TCP, r, err)
+			r, err = f.tcpFail(f.dot.ServerDNS, vc01Frame(wire), p.tcpChunk, 1)
+			check(ref.DoT, r, err)
+		}
 	}
 
 	// DNSCrypt: the encryption layer only hands over decodable single-question
@@ -860,7 +932,8 @@ func TestVerifC01Framing(t *testing.T) {
 		"kind-silent", "kind-large", "truncated-on-udp", "truncated-on-dnscrypt-udp", "cross-transport-compared", "json", "req-padding", "req-keepalive",
 		"doq:no-message", "doq:servfail-or-none", "doq-bad-prefix", "udp-oversize-query", "mixed-case-name", "max-length-name",
 		"near-miss", "near-miss-case", "near-miss-grow", "tcp-burst", "json-do-only", "json-sde-only", "json-cd-only", "json-do+sde",
-		"json-invalid-param", "json-type-default", "json-type-mnemonic", "json-vs-wire-compared", "doh-decoy-params", "tcp-short-frame", "tcp-empty-frame", "doq-two-in-one", "doh-two-dns-params",
+		"json-invalid-param", "json-type-default", "json-type-mnemonic", "json-vs-wire-compared",
+		"first-write-fails-unencodable", "first-write-fails-too-large-after-padding", "first-write-fails-transient", "kind-huge", "dot:huge-servfail", "tcp:huge-complete", "doh-decoy-params", "tcp-short-frame", "tcp-empty-frame", "doq-two-in-one", "doh-two-dns-params",
 		"root-name", "one-label-name", "query-size-511", "query-size-512", "query-size-513", "req-padding+keepalive", "doq:fallback-servfail")
 	st.Finish(t)
 
@@ -1025,11 +1098,27 @@ type vc01LateCtl struct {
 	latePast  chan struct{} // a past deadline has been put on the socket
 	lateDone  chan struct{} // the late request has been processed completely
 	nAttempt  chan struct{} // the normal writer has attempted its write
+	// normalDone: the normal request has been processed completely (so that the
+	// late handler is released even if the normal writer never touches the
+	// socket).
+	normalDone chan struct{}
+}
+
+// waitAny waits for one of the two channels, at most 30 s.
+func (h *vc01LateCtl) waitAny(a, b chan struct{}) {
+	t := time.NewTimer(30 * time.Second)
+	defer t.Stop()
+
+	select {
+	case <-a:
+	case <-b:
+	case <-t.C:
+	}
 }
 
 func vc01NewLateCtl(waitForCtx bool) *vc01LateCtl {
 	return &vc01LateCtl{waitForCtx: waitForCtx, closed: map[chan struct{}]bool{}, reached: make(chan struct{}), normalSet: make(chan struct{}),
-		latePast: make(chan struct{}), lateDone: make(chan struct{}), nAttempt: make(chan struct{})}
+		latePast: make(chan struct{}), lateDone: make(chan struct{}), nAttempt: make(chan struct{}), normalDone: make(chan struct{})}
 }
 
 func (h *vc01LateCtl) once(c chan struct{}) {
